@@ -767,6 +767,20 @@ func describeStatic(x *index, it staticItem) []string {
 				}
 			}
 		}
+	case "src":
+		// the rows of the table extracted from the text of this file, numbered as the Coq check
+		// numbers them (the classification key ends in .at<row>)
+		on := false
+		i := 0
+		for _, r := range sourceRows(x.srcs) {
+			if strings.HasPrefix(r, "RFile ") {
+				on = r == "RFile "+coqStr(it.file)+" "+coqStr(srcPkg(x, it.file))
+			}
+			if on {
+				out = append(out, fmt.Sprintf("source row %d: %s", i, r))
+				i++
+			}
+		}
 	case "file", "enum", "svc":
 		// rendered generically
 		ga, pa := renderItem(x.gogo, it), renderItem(x.pulsar, it)
@@ -775,6 +789,15 @@ func describeStatic(x *index, it staticItem) []string {
 		}
 	}
 	return out
+}
+
+func srcPkg(x *index, file string) string {
+	for _, s := range x.srcs {
+		if s.Name == file {
+			return s.Pkg
+		}
+	}
+	return ""
 }
 
 func isGogoScope(x *index, file string) bool {
